@@ -5,7 +5,10 @@ from __future__ import annotations
 import ast
 import itertools
 
-from .. import dl, lit
+import os
+
+from .. import dl, l2, lit, pe
+from .. import rx as rxa
 from ..core import AnalysisError
 from ..flow import PathFacts, split_and
 from ..src import Locals, call_name, dotted, mod, norm, stmt_key, walk_local
@@ -227,6 +230,94 @@ def _inline(expr, assigns, depth=0):
     return norm(T().visit(ast.parse(norm(expr), mode="eval").body))
 
 
+NOOP_NODES = {
+    # IR statements that legitimately produce no firmware text, with the reason (confirmed by reading the emitter)
+    ("LCDBacklight", "no-backlight-pin"): "a parallel LCD wired without a backlight pin has nothing to switch",
+    ("LCDBrightness", "no-backlight-pin"): "brightness needs the PWM backlight pin; without one (or on I2C) there is nothing to drive",
+    ("LCDMessage", "no-text"): "message() with neither top nor bottom prints nothing",
+    ("LedFlashPattern", "empty-pattern"): "an empty pattern has no steps",
+}
+
+
+def _noop_reason(cname, kw, dlabel):
+    if cname == "LCDBacklight" and dlabel == "parallel":
+        return "no-backlight-pin"
+    if cname == "LCDBrightness" and dlabel in ("parallel", "i2c"):
+        return "no-backlight-pin"
+    if cname == "LCDMessage" and kw.get("top") is None and kw.get("bottom") is None:
+        return "no-text"
+    if cname == "LedFlashPattern" and kw.get("pattern") == []:
+        return "empty-pattern"
+    return None
+
+
+def rule_emit(cx, rid):
+    """the emitter half of "no statement disappears": every IR statement contributes text, control flow keeps its header"""
+    from . import c06
+    em = mod("transpile/emitter.py")
+    cx.consulted(em)
+    cls, _fields = pe.ir_classes()
+    r = cx.rule(rid, "every IR statement (each action class in each field variant) contributes firmware text, except a fixed table of no-ops; control-flow statements keep their header and every condition even when a body is empty (`while wait(): pass`, `elif c: pass`)", floor=300, exhaustive=True)
+    eb = em.func("_emit_block")
+    import re as _re
+    for label, setup, loop, kw in c06.programs_for_schema("quick"):
+        if kw or not (setup or loop):
+            continue
+        body = setup if setup else loop
+        node, pre = body[-1], body[:-1]
+        cname = type(node).__name__
+        if cname.endswith("Decl") and cname != "VarDecl":
+            continue
+        a = pe.emit_program(setup=body if setup else [], loop=body if loop else [])
+        if a.raised:
+            r.ok(None)
+            continue
+        b = pe.emit_program(setup=pre if setup else [], loop=pre if loop else [])
+        if a.text != b.text:
+            r.ok(None)
+            continue
+        m_ = _re.match(r"(\w+)\[([^\]]*)\]", label)
+        dlabel = m_.group(2) if m_ else ""
+        fields = {f: getattr(node, f) for f in vars(node)}
+        why = _noop_reason(cname, fields, dlabel)
+        if why and (cname, why) in NOOP_NODES:
+            r.ok(f"{cname}: no-op allowed [{why}]")
+        else:
+            r.fail(f"{cname}/emits-nothing", (em, eb), f"{label}: the statement is accepted by the emitter but contributes no firmware text - it disappears without a diagnostic")
+    S = cls["Sleep"]
+    CB = cls["ConditionalBranch"]
+    shapes = [
+        ("while/empty-body", [cls["WhileLoop"](condition="H_cw", body=[])], ["H_cw"]),
+        ("for/empty-body", [cls["ForRangeLoop"](var_name="i", count="H_cn", body=[])], ["H_cn"]),
+        ("if/empty-body", [cls["IfStatement"](branches=[CB(condition="H_ca", body=[])], else_body=[])], ["H_ca"]),
+        ("if/empty-body-with-else", [cls["IfStatement"](branches=[CB(condition="H_ca", body=[])], else_body=[S(ms=3)])], ["H_ca", "delay(3)"]),
+        ("elif/empty-body", [cls["IfStatement"](branches=[CB(condition="H_ca", body=[S(ms=1)]), CB(condition="H_cb", body=[]), CB(condition="H_cc", body=[S(ms=2)])], else_body=[S(ms=3)])], ["H_ca", "H_cb", "H_cc", "delay(1)", "delay(2)", "delay(3)"]),
+        ("elif/first-empty", [cls["IfStatement"](branches=[CB(condition="H_ca", body=[]), CB(condition="H_cb", body=[S(ms=2)])], else_body=[])], ["H_ca", "H_cb", "delay(2)"]),
+        ("try/empty-handler", [cls["TryStatement"](try_body=[S(ms=1)], handlers=[cls["CatchClause"](exception=None, target=None, body=[])])] if "TryStatement" in cls else None, ["delay(1)"]),
+        ("while/nested-empty", [cls["WhileLoop"](condition="H_cw", body=[cls["IfStatement"](branches=[CB(condition="H_ca", body=[])], else_body=[])])], ["H_cw", "H_ca"]),
+    ]
+    fd = cls["FunctionDef"]
+    for label, nodes, must in shapes:
+        if nodes is None:
+            continue
+        for place in ("setup", "loop", "function"):
+            try:
+                if place == "setup":
+                    res = pe.emit_program(setup=nodes)
+                elif place == "loop":
+                    res = pe.emit_program(loop=nodes)
+                else:
+                    res = pe.emit_program(setup=[cls["ExprStmt"](expr="wait()")], functions=[fd(name="wait", params=[], body=nodes, return_type="void")])
+            except Exception as e:
+                raise AnalysisError(f"emit of {label} in {place} not evaluable: {e}")
+            if res.raised:
+                r.ok(f"{label}@{place}: rejected ({res.raised})")
+                continue
+            missing = [m for m in must if m not in res.text]
+            r.check(not missing, f"{label}@{place}/kept", (em, eb), f"{label} in {place}: {missing} no longer appear in the firmware - a control-flow statement (or its condition) was dropped", sample=f"{label}@{place}")
+    return r
+
+
 def run(cx):
     pm = mod(PARSER)
     cx.consulted(pm)
@@ -412,6 +503,86 @@ def run(cx):
             elif isinstance(container, ast.Call) and isinstance(container.func, ast.Attribute) and container.func.attr in ("get", "setdefault") and container.args:
                 src_ok = lit.try_ev(container.args[0]) in root_keys
             r.check(src_ok, f"guard[{cn[:40]}]/scope-shared", (pm, n), f"`{norm(n)}` guards a fall-through arm with a set that is created lazily: scopes snapshotted before the first declaration (a def above the declaration, a branch) never see it and the statement is silently ignored", sample=f"guard {cn[:40]}")
+
+    # ---- C07-KEYWORD -------------------------------------------------------------------------
+    r = cx.rule("C07-KEYWORD", "every keyword/identifier a parser regex spells out as literal letters (import, from, while, target, method names ...) ends at a token boundary: what may follow cannot be an identifier character, so `important = 1` is never taken for an import and skipped", floor=70)
+    pats = []
+    for name, node in pm.consts.items():
+        v = lit.try_ev(node, pm)
+        if isinstance(v, lit.Regex):
+            pats.append((name, v.pattern, (pm.rel, node.lineno)))
+    for n in ast.walk(pm.tree):
+        if isinstance(n, ast.Call) and call_name(n) in ("re.match", "re.search", "re.fullmatch", "re.compile", "re.sub", "re.split", "re.findall", "re.finditer") and n.args and pm.enclosing_func(n) is not None:
+            v = lit.try_ev(n.args[0], pm)
+            if isinstance(v, str):
+                pats.append((f"{pm.qualname_of(pm.enclosing_func(n))}:{v[:30]}", v, (pm, n)))
+    for name, pat, where in pats:
+        try:
+            kb = rxa.keyword_boundaries(pat)
+        except rxa.RxUnsupported as e:
+            raise AnalysisError(f"regex {name} uses a construct the boundary analysis does not model: {e}")
+        r.check(not kb, f"{name}/keyword-boundary[{','.join(k for k, _ in kb)}]", where, f"regex {name} accepts {', '.join(repr(k) + ' followed by an identifier character' for k, _ in kb)}: a longer identifier starting with that word is taken for the keyword", sample=name)
+    # the rule must be able to fire: a known-bad pattern is analysed on every run
+    if not rxa.keyword_boundaries(r"^\s*(?:from\s+[\w.]+\s+)?import\s*.*$") or rxa.keyword_boundaries(r"^\s*(?:from\s+[\w.]+\s+)?import\s+.*$"):
+        raise AnalysisError("keyword-boundary analysis lost its positive/negative control")
+    cx.extra["regexes_analysed"] = len(pats)
+
+    # ---- C07-COMMENT -------------------------------------------------------------------------
+    depth = 7 if os.environ.get("VERIF_TIER") == "thorough" else 5
+    r = cx.rule("C07-COMMENT", f"_strip_inline_comment cuts exactly at the first `#` that is outside a string literal (and nowhere else), evaluated as a decision list over every well-formed line up to length {depth} over the alphabet {{' \" # \\ x space}}", floor=2000, exhaustive=True)
+    sic = pm.func("_strip_inline_comment")
+
+    def ref(t):
+        q, i = None, 0
+        while i < len(t):
+            c = t[i]
+            if q:
+                if c == "\\":
+                    i += 2
+                    continue
+                if c == q:
+                    q = None
+            else:
+                if c == "\\":
+                    return None
+                if c in "'\"":
+                    q = c
+                elif c == "#":
+                    return t[:i].rstrip()
+            i += 1
+        return None if q else t
+
+    it = dl.Interp(pm)
+    n_bad = 0
+    for L in range(0, depth + 1):
+        for tup in itertools.product("'\"#\\x ", repeat=L):
+            t = "".join(tup)
+            if "'''" in t or '"""' in t:
+                continue
+            want = ref(t)
+            if want is None:
+                continue   # not a well-formed single line (unterminated string / stray backslash)
+            it.steps = 0
+            try:
+                out = it.call(sic, [t])
+            except dl.Unsupported as e:
+                raise AnalysisError(f"_strip_inline_comment left the evaluable subset: {e}")
+            if out.kind == "return" and out.value == want:
+                r.ok(None)
+            else:
+                n_bad += 1
+                if n_bad <= 3:
+                    r.fail(f"strip_inline_comment/{'cut-inside-string-or-missed' if '#' in t else 'changed-comment-free-line'}", (pm, sic), f"_strip_inline_comment({t!r}) -> {out!r}, Python's tokenizer gives {want!r}", detail={"line": t})
+                else:
+                    r.stat.obligations += 1
+                    r.stat.failed += 1
+
+    # ---- C07-PURE ----------------------------------------------------------------------------
+    from . import c10
+    c10.rule_global_state(cx, "C07-PURE", [pm])
+
+    # ---- C07-EMIT ----------------------------------------------------------------------------
+    rule_emit(cx, "C07-EMIT")
 
     # ---- C07-ARM-SHADOW ----------------------------------------------------------------------
     r = cx.rule("C07-ARM-SHADOW", "arms whose regexes accept the same method call are ordered guarded-first: an unguarded arm never precedes a guarded arm for the same `.method(`", floor=25)
